@@ -90,39 +90,52 @@ def _layers(ck, prog):
         construct = SEQ_PATH + ":" + f.qual
         _guard(ck, prog, f, construct, "complexity-" + k, wparam="windowSize")
         g = prog.fn(CX, "SequenceComplexity.get_%s_complexity" % k)
-        rets = [n for n in ast.walk(f.node) if isinstance(n, ast.Return)]
-        ok = False
-        if len(rets) == 1 and isinstance(rets[0].value, ast.Call):
-            callee, b = bind.bind(prog, f, rets[0].value)
-            want = {"sequence": "self.seq", "alphabetSize": "alphabetSize", "userAlphabet": "userAlphabet",
-                    "windowSize": "windowSize", "stepSize": "stepSize"}
-            if k == "LC":
-                want["wordSize"] = "wordSize"
-            ok = callee is g and {x: unparse(b.get(x)) if b.get(x) is not None else None for x in want} == want
-        ck.ob("BIND", construct, ok, expected="ComplexityObject.get_%s_complexity(self.seq, <same-named arguments>)" % k,
-              found=unparse(rets[0].value) if rets else None, slot="forwards", where=f.loc())
-        # inside the complexity object: reduce first, measure on the reduced sequence, index with the original length
+        want = {"alphabetSize": "alphabetSize", "userAlphabet": "userAlphabet", "windowSize": "windowSize", "stepSize": "stepSize"}
+        if k == "LC":
+            want["wordSize"] = "wordSize"
+        bind.check_wrapper(ck, prog, "BIND", SEQ, f.qual, g.key, argmap=want)
+        for r in bind.returns_of(f):
+            if isinstance(r.value, ast.Call):
+                _, b = bind.bind(prog, f, r.value)
+                a = b.get("sequence") if b else None
+                ck.shape(a is not None, "%s: sequence argument bound" % f.qual, f.loc(r))
+                ck.ob("BIND", construct, unparse(a) == "self.seq", expected="sequence = self.seq", found=unparse(a), slot="sequence", where=f.loc(r))
+        # inside the complexity object: reduce first, measure on the REDUCED sequence with the returned alphabet, index with the original length
         gconstruct = CX_PATH + ":" + g.qual
-        body = g.body()
-        okr = okm = oki = False
-        if len(body) == 3 and isinstance(body[0], ast.Assign) and isinstance(body[0].value, ast.Call) \
-                and prog.resolve_call(g, body[0].value) is red and isinstance(body[0].targets[0], ast.Tuple):
-            rseq, alpha = [unparse(e) for e in body[0].targets[0].elts]
-            okr = [unparse(a) for a in body[0].value.args] == ["sequence", "alphabetSize", "userAlphabet"]
-            m = prog.fn(CX, "SequenceComplexity." + meas)
-            if isinstance(body[1], ast.Assign) and isinstance(body[1].value, ast.Call) and prog.resolve_call(g, body[1].value) is m:
-                callee, b = bind.bind(prog, g, body[1].value)
-                want = {"sequence": rseq, "alphabet": alpha, "windowSize": "windowSize", "stepSize": "stepSize"}
-                if k == "LC":
-                    want["wordSize"] = "wordSize"
-                okm = {x: unparse(b.get(x)) if b.get(x) is not None else None for x in want} == want
-                vec = unparse(body[1].targets[0])
-                if isinstance(body[2], ast.Return) and isinstance(body[2].value, ast.Call) \
-                        and prog.resolve_call(g, body[2].value) is idxv:
-                    oki = [unparse(a) for a in body[2].value.args] == [vec, "len(sequence)"]
-        ck.ob("ORDER", gconstruct, okr and okm and oki,
-              expected="reduce_alphabet(sequence, size, user) -> %s(reduced, alphabet, w, s) -> indexed with len(sequence)" % meas,
-              found={"reduce_first": okr, "measure_on_reduced": okm, "indexed": oki}, slot="pipeline", where=g.loc())
+        m = prog.fn(CX, "SequenceComplexity." + meas)
+        calls = {"reduce": [], "measure": [], "index": []}
+        for n in ast.walk(g.node):
+            if isinstance(n, ast.Call):
+                c = prog.resolve_call(g, n)
+                if c is red:
+                    calls["reduce"].append(n)
+                elif c is m:
+                    calls["measure"].append(n)
+                elif c is idxv:
+                    calls["index"].append(n)
+        ck.shape(all(len(v) == 1 for v in calls.values()), "%s: one reduce_alphabet call, one %s call, one indexing call" % (g.qual, meas), g.loc())
+        rcall, mcall, icall = calls["reduce"][0], calls["measure"][0], calls["index"][0]
+        tgt = next((a.targets[0] for a in ast.walk(g.node) if isinstance(a, ast.Assign) and a.value is rcall), None)
+        ck.shape(isinstance(tgt, ast.Tuple) and len(tgt.elts) == 2, "%s: (reduced, alphabet) = reduce_alphabet(...)" % g.qual, g.loc(rcall))
+        rseq, alpha = [unparse(e) for e in tgt.elts]
+        _, rb = bind.bind(prog, g, rcall)
+        ck.ob("ORDER", gconstruct, {x: unparse(rb.get(x)) if rb.get(x) is not None else None for x in ("sequence", "alphabetSize", "userAlphabet")}
+              == {"sequence": "sequence", "alphabetSize": "alphabetSize", "userAlphabet": "userAlphabet"},
+              expected="reduce_alphabet(sequence, alphabetSize, userAlphabet)", found=unparse(rcall), slot="reduce-first", where=g.loc(rcall))
+        _, mb = bind.bind(prog, g, mcall)
+        wantm = {"sequence": rseq, "alphabet": alpha, "windowSize": "windowSize", "stepSize": "stepSize"}
+        if k == "LC":
+            wantm["wordSize"] = "wordSize"
+        ck.ob("ORDER", gconstruct, {x: unparse(mb.get(x)) if mb.get(x) is not None else None for x in wantm} == wantm,
+              expected="%s(<reduced sequence>, <its alphabet>, windowSize, stepSize%s)" % (meas, ", wordSize" if k == "LC" else ""), found=unparse(mcall),
+              slot="measure-on-reduced", where=g.loc(mcall), note="each value must depend only on its window AFTER alphabet reduction")
+        vec = next((unparse(a.targets[0]) for a in ast.walk(g.node) if isinstance(a, ast.Assign) and a.value is mcall), None)
+        _, ib = bind.bind(prog, g, icall)
+        got_i = [unparse(ib.get("complexity_vector")) if ib.get("complexity_vector") is not None else None,
+                 unparse(ib.get("seq_len")).replace(" ", "") if ib.get("seq_len") is not None else None]
+        ok_vec = got_i[0] == vec or (vec is None and got_i[0] == unparse(mcall))
+        ck.ob("ORDER", gconstruct, ok_vec and got_i[1] == "len(sequence)", expected="indexed with the measure's values and the ORIGINAL sequence length", found=got_i,
+              slot="indexed", where=g.loc(icall))
 
 
 def _measure(prog, name):
@@ -250,6 +263,27 @@ def _locality(ck, prog, name):
                 for n in ast.walk(t):
                     if isinstance(n, ast.Subscript) and isinstance(n.value, ast.Name) and n.value.id == seqp:
                         found.append((n, dict(env), list(cons)))
+            # comprehensions inside this statement behave like loops over their generators
+            for comp in [n for n in ast.walk(s) if isinstance(n, (ast.ListComp, ast.SetComp, ast.GeneratorExp, ast.DictComp))] \
+                    if not isinstance(s, (ast.For, ast.While, ast.If)) else []:
+                e2, c2 = dict(env), list(cons)
+                okc = True
+                for gen in comp.generators:
+                    try:
+                        r = ev.eval(gen.iter, e2, fr)
+                    except Exception:
+                        r = None
+                    if hasattr(r, "lo") and hasattr(r, "hi") and isinstance(gen.target, ast.Name):
+                        v = "i:" + gen.target.id
+                        e2[gen.target.id] = Rat.atom(v)
+                        c2 += [_le(r.lo, Rat.atom(v)), _le(Rat.atom(v), r.hi - Rat.const(1))]
+                    else:
+                        okc = False
+                for n in ast.walk(comp):
+                    if isinstance(n, ast.Subscript) and isinstance(n.value, ast.Name) and n.value.id == seqp:
+                        # replace the entry recorded with the statement-level environment
+                        found[:] = [x for x in found if x[0] is not n]
+                        found.append((n, dict(e2) if okc else None, list(c2)))
             if isinstance(s, ast.Assign) and len(s.targets) == 1 and isinstance(s.targets[0], ast.Name):
                 try:
                     v = ev.eval(s.value, env, fr)
@@ -277,6 +311,7 @@ def _locality(ck, prog, name):
     visit(loop.body, base_env, [])
     n = 0
     for node, env, cons in found:
+        ck.shape(env is not None, "%s: read of the reduced sequence inside a construct whose index range lcsa cannot bound" % name, f.loc(node))
         env = {k: v for k, v in env.items() if v is not None}
         sl = node.slice
         try:
@@ -287,9 +322,7 @@ def _locality(ck, prog, name):
             else:
                 first = last = ev.eval(sl, env, fr)
         except Undecided as e:
-            ck.ob("INTV-local", construct, False, expected="index expressible in (step, loop variables, w)", found=str(e),
-                  slot="read:%s" % unparse(node), where=f.loc(node))
-            continue
+            raise Undecided("%s: index of a read of the reduced sequence is not expressible in (step, loop variables, w): %s" % (name, e), f.loc(node))
         dom = cons + [Lin({"w": -1}, 1, "<="), Lin({"k": -1}, 1, "<="), Lin({"step": -1}, 0, "<=")]
         below = feasible(dom + [_lt(first, Rat.atom("step"))])
         above = feasible(dom + [_lt(Rat.atom("step") + W - Rat.const(1), last)])
